@@ -37,12 +37,24 @@ Definition str_ok (f : fmt) (iskey : bool) (s : bytes) : bool :=
   | FSen => sen_quote s || (bare_safe s && (iskey || negb (keyword s)))
   end.
 
-(* a number text with a fraction or an exponent: the lexer reads all of it as one non-integer number *)
-Definition dec_ok (raw : bytes) : bool :=
-  match lex_run (LValue, []) raw with
-  | (LNum st acc, []) => match st with NFrac | NExp => bytes_eqb acc (List.rev raw) | _ => false end
-  | _ => false
+(* a number text: following the number maps from its first byte never leaves the number; where it ends *)
+Definition num_start (b : byte) : option nst :=
+  let c := cls tbl_valueMap b in
+  if (c =? K "f")%N then Some NNeg else if (c =? K "g")%N then Some NZero else if (c =? K "h")%N then Some NInt else None.
+Fixpoint num_scan (st : nst) (s : bytes) : option nst :=
+  match s with
+  | [] => Some st
+  | b :: r => match nstep st b with NCont st' => num_scan st' r | _ => None end
   end.
+Definition num_final (st : nst) : bool := match st with NZero | NInt | NFrac | NExp => true | _ => false end.
+Definition num_end (raw : bytes) : option nst :=
+  match raw with
+  | [] => None
+  | b :: r => match num_start b with Some st => num_scan st r | None => None end
+  end.
+(* a number text with a fraction or an exponent: all of it is one non-integer number for the parser *)
+Definition dec_ok (raw : bytes) : bool :=
+  match num_end raw with Some NFrac | Some NExp => true | _ => false end.
 
 Fixpoint keys_nodup (ks : list bytes) : bool :=
   match ks with
